@@ -386,7 +386,36 @@ fn main() {
     for i in 0..args.n {
         let kind = if i % 2 == 0 { "U" } else { "I" };
         let nr = 3 + rng.below(3) as usize;
-        let case = gen_int_history(&mut rng, kind, nr, len, args.max_words);
+        let mut case = gen_int_history(&mut rng, kind, nr, len, args.max_words);
+        // capacity probes (UBig): the history is executed once unrecorded to learn the capacity each register ends with
+        // (allocation sizes depend on the operations only), then set_bit steps are appended at bit indices relative to
+        // that capacity: the last bit the buffer holds, the first one beyond it, one word further
+        if kind == "U" && i % 3 == 0 {
+            let mut quiet = |f: &mut dyn FnMut()| -> Value {
+                f();
+                json!([])
+            };
+            let dry = run_history_opt(&case, &mut quiet, true);
+            let _ = drain_events();
+            let mut extra: Vec<Value> = Vec::new();
+            if let Some(ts) = dry["fin"]["t"].as_array() {
+                for (r, t) in ts.iter().enumerate() {
+                    let cap = t[0]["cap"].as_u64().unwrap_or(0);
+                    if t[0]["heap"].as_bool().unwrap_or(false) && extra.len() < 2 && rng.coin() {
+                        let k = rng.below(64);
+                        let n = match rng.below(4) {
+                            0 => 64 * cap - 1,
+                            1 => 64 * (cap + 1) + k,
+                            _ => 64 * cap + k,
+                        };
+                        extra.push(json!({"op": "setbit", "d": r + 1, "a": r + 1, "n": n}));
+                    }
+                }
+            }
+            if let Some(steps) = case["steps"].as_array_mut() {
+                steps.extend(extra);
+            }
+        }
         emit(&mut log, &case, "rnd", &mut faults);
     }
     let n = log.finish();
